@@ -296,9 +296,10 @@ TRecvBest ==
   /\ LET r == Rec[l] IN
      \E k \in Searches :
         /\ S_Best(k) /\ bests'[k] = bests[k] + 1
-        \* legal in the session position as of that go (not judged in junk sessions, where lines outside
+        \* legal in the session position as of that go; a position without a legal move is outside the properties
+        \* (not judged in junk sessions, where lines outside
         \* the documented form may have moved the session in ways the property does not describe)
-        /\ Mode # "C15" => \E m \in C!Legal(sOf[k]) : C!TokenNames(r.mv, m)
+        /\ Mode # "C15" => (C!Legal(sOf[k]) = {} \/ \E m \in C!Legal(sOf[k]) : C!TokenNames(r.mv, m))
         \* within the time the limits allow, and promptly after a stop
         /\ Mode \in {"C09", "C10", "C10U"} =>
              LET a == AllowedMs(limOf[k], sOf[k].turn) IN
